@@ -232,6 +232,16 @@ func c17Callback(key string) (any, bool) {
 			return func(in system.Collection) (system.String, error) { return "", nil }, true
 		case "threeresults":
 			return func(in system.Collection) (system.Collection, error, int) { return in, nil, 0 }, true
+		case "threeresults-errlast": // exactly (Collection, error) is the contract: an extra result in between is a bad signature
+			return func(in system.Collection) (system.Collection, system.Boolean, error) {
+				return in, true, injected[2]
+			}, true
+		case "tworesults-twice": // (Collection, error, error)
+			return func(in system.Collection) (system.Collection, error, error) { return in, nil, injected[2] }, true
+		case "fourresults":
+			return func(in system.Collection) (system.Collection, system.Collection, int, error) { return in, in, 0, injected[2] }, true
+		case "variadic-results-ok-params": // variadic parameters are outside the fixed-list contract
+			return func(in system.Collection, more ...system.String) (system.Collection, error) { return in, nil }, true
 		case "noresults":
 			return func(in system.Collection) {}, true
 		case "concreteerr": // a concrete type that implements error is not the error interface
